@@ -140,10 +140,13 @@ impl wire::Decode for NodeAnnouncement {
         let alias = wire::Decode::decode(reader)?;
         let addresses = BoundedVec::<Address, ADDRESS_LIMIT>::decode(reader)?;
         let nonce = u64::decode(reader)?;
-        let agent = match UserAgent::decode(reader) {
-            Ok(ua) => ua,
-            Err(e) if e.is_eof() => UserAgent::default(),
-            Err(e) => return Err(e),
+        // Nb. The user agent is optional, but it is either entirely absent or entirely
+        // present: a user agent that is cut short is a truncated message, not a missing one.
+        let mut len = [0u8; 1];
+        let agent = match io::Read::read_exact(reader, &mut len) {
+            Ok(()) => UserAgent::decode(&mut io::Read::chain(&len[..], &mut *reader))?,
+            Err(e) if e.kind() == io::ErrorKind::UnexpectedEof => UserAgent::default(),
+            Err(e) => return Err(e.into()),
         };
 
         Ok(Self {
